@@ -277,6 +277,9 @@ class Recorder:
         from .vloop import InjectedSendError
         if isinstance(context.get("exception"), InjectedSendError):     # a failure the harness injected itself: not an observation
             return True
+        if type(context.get("exception")).__name__ == "AppError":      # a scenario's own failing application callback
+            self.emit(k="note", what="application callback raised")
+            return True
         self.emit(k="exc", what=repr(context.get("exception") or context.get("message"))[:120])
         return True
 
@@ -309,6 +312,9 @@ class Recorder:
 
     def flush_exceptions(self):
         for c in self.loop.exceptions:
+            if type(c.get("exception")).__name__ == "AppError":      # a scenario's own failing application callback, reached through a loop callback
+                self.emit(k="note", what="application callback raised")
+                continue
             self.emit(k="exc", what=repr(c.get("exception") or c.get("message"))[:120])
         self.loop.exceptions.clear()
 
@@ -331,6 +337,11 @@ def abs_sub(s):
         if k[:3] == (s.service_id, s.instance_id, s.major_version):
             k3 = k
     return {"svc": RSVC.get(k3, "s?"), "eg": s.id, "ctr": s.counter, "eps": eps, "ttl": s.ttl}
+
+
+class AppError(Exception):
+    """raised on purpose by an application callback of a scenario (a listener that fails): it reaches the caller of the library --
+    logged as a note, not as a failure of the library"""
 
 
 class ServerL(sd.ServerServiceListener):
@@ -390,10 +401,18 @@ def timings(**kw):
 class Stack:
     """one ServiceDiscoveryProtocol on its own VLoop with fake transport and recorder"""
 
-    def __init__(self, tim=None, sockname=("192.0.2.100", 30490), rand=None, loop=None):
+    def __init__(self, tim=None, sockname=("192.0.2.100", 30490), rand=None, loop=None, late_timings=False):
         self.loop = loop or new_loop()
         self.rec = Recorder(self.loop)
-        self.prot = sd.ServiceDiscoveryProtocol(MC, timings=tim or timings())
+        if late_timings and tim is not None:
+            # the way users of create_endpoints() configure the stack: the protocol object exists already (library defaults),
+            # the application then assigns the fields of prot.timings one by one, before anything is started
+            self.prot = sd.ServiceDiscoveryProtocol(MC)
+            import dataclasses
+            for f in dataclasses.fields(tim):
+                setattr(self.prot.timings, f.name, getattr(tim, f.name))
+        else:
+            self.prot = sd.ServiceDiscoveryProtocol(MC, timings=tim or timings())
         self.prot.transport = FakeTransport(self.rec.on_send, sockname)
         for comp, obj in (("disc", self.prot.discovery), ("sub", self.prot.subscriber), ("ann", self.prot.announcer)):
             def wrapper(exc, comp=comp, orig=obj.connection_lost):
@@ -414,6 +433,8 @@ class Stack:
         self.rec.emit(k="in", **ev)
         try:
             self.prot.datagram_received(data, ADDR[ev["src"]], multicast=ev["mc"])
+        except AppError:
+            self.rec.emit(k="note", what="application callback raised")
         except Exception as exc:
             self.rec.emit(k="exc", what="datagram_received raised " + repr(exc)[:100])
 
@@ -421,6 +442,8 @@ class Stack:
         self.rec.emit(k="in", **ev)
         try:
             return fn(*a, **kw)
+        except AppError:
+            self.rec.emit(k="note", what="application callback raised")
         except Exception as exc:
             self.rec.emit(k="exc", what="%s raised %s" % (ev.get("op"), repr(exc)[:100]))
 
